@@ -22,6 +22,28 @@ from .values import (
 )
 
 _cellc = itertools.count(1)
+_quant_cache: dict = {}
+
+
+def _has_quant(e) -> bool:
+    key = e.get_id()
+    if key in _quant_cache:
+        return _quant_cache[key]
+    out = False
+    stack = [e]
+    seen = set()
+    while stack:
+        x = stack.pop()
+        if x.get_id() in seen:
+            continue
+        seen.add(x.get_id())
+        if z3.is_quantifier(x):
+            out = True
+            break
+        if z3.is_app(x):
+            stack.extend(x.children())
+    _quant_cache[key] = out
+    return out
 
 
 @dataclass
@@ -59,7 +81,7 @@ class Frame:
 
 
 class Engine:
-    def __init__(self, world: World, specs, feas_timeout_ms: int = 400):
+    def __init__(self, world: World, specs, feas_timeout_ms: int = 150):
         self.w = world
         self.specs = specs
         self.feas_timeout_ms = feas_timeout_ms
@@ -87,10 +109,35 @@ class Engine:
         else:
             self.st.pc.append(f)
 
+    def _mentions_bound(self, f) -> bool:
+        ids = {v.get_id() for b in self.binders for v in b["vars"]}
+        if not ids:
+            return False
+        stack, seen = [f], set()
+        while stack:
+            x = stack.pop()
+            i = x.get_id()
+            if i in seen:
+                continue
+            seen.add(i)
+            if i in ids:
+                return True
+            if z3.is_quantifier(x):
+                stack.append(x.body())
+            elif z3.is_app(x):
+                stack.extend(x.children())
+        return False
+
     def side_fact(self, f):
-        if self.facts is not None:
+        if self.facts is not None and self._mentions_bound(f):
             self.facts.append(f)
         else:
+            # closed facts (also those produced under a binder) belong to the path condition itself
+            seen = self.st.__dict__.setdefault("fact_ids", set())
+            fid = f.get_id()
+            if fid in seen:
+                return
+            seen.add(fid)
             self.st.pc.append(f)
 
     def choose(self, n: int, label: str) -> int:
@@ -106,6 +153,17 @@ class Engine:
         return c
 
     def feasible(self) -> bool:
+        # 1. quantifier-free part only: fast and decisive in most cases
+        s = z3.Solver()
+        s.set("timeout", self.feas_timeout_ms)
+        qf = [p for p in self.st.pc if not _has_quant(p)]
+        for p in qf:
+            s.add(p)
+        if s.check() == z3.unsat:
+            return False
+        if len(qf) == len(self.st.pc):
+            return True
+        # 2. everything, short budget; `unknown` counts as feasible
         s = z3.Solver()
         s.set("timeout", self.feas_timeout_ms)
         for a in self.w.global_axioms():
@@ -176,6 +234,8 @@ class Engine:
         term, ty = cur.term, cur.ty
         for step in ref.path:
             term, ty = self._step_read(term, ty, step)
+        if ref.path and term is not None:
+            term = z3.simplify(term)
         return SV(term, ty, ref=ref)
 
     def _step_read(self, term, ty, step):
@@ -203,11 +263,10 @@ class Engine:
         if ref.cell in self.st.moved and ref.cell not in self.st.param_cells:
             raise Unsupported(f"alias hazard: mutation through a value embedded elsewhere at line {self.st.moved[ref.cell]} (line {line})")
         cur = self.st.cells[ref.cell]
-        newterm = self._write(cur.term, cur.ty, ref.path, val)
-        # name the new root value (keeps terms small, helps triggers)
-        c = self.w.fresh(cur.ty, "st")
-        self.st.pc.append(c == newterm)
-        self.st.cells[ref.cell] = SV(c, cur.ty)
+        newterm = z3.simplify(self._write(cur.term, cur.ty, ref.path, val))
+        # the root keeps its structure (constructor / store terms): reads of untouched parts then reduce
+        # syntactically to the old sub-terms (key sets, configs, other dict entries stay *identical* terms)
+        self.st.cells[ref.cell] = SV(newterm, cur.ty)
 
     def _write(self, term, ty, path, val: SV):
         if not path:
@@ -225,8 +284,9 @@ class Engine:
         if k == "i":
             return s.constructor(0)(s.accessor(0, 0)(term), z3.Store(s.accessor(0, 1)(term), step[1], newsub))
         if k == "k":
-            return s.constructor(0)(z3.Store(s.accessor(0, 0)(term), step[1], True),
-                                    z3.Store(s.accessor(0, 1)(term), step[1], newsub))
+            # a place with a key step always denotes a PRESENT key (it was obtained by d[k] under its KeyError
+            # obligation, by setdefault, or by iteration), so the key set is not touched
+            return s.constructor(0)(s.accessor(0, 0)(term), z3.Store(s.accessor(0, 1)(term), step[1], newsub))
         if k == "some":
             return s.constructor(1)(newsub)
         if k == "inj":
@@ -261,6 +321,8 @@ class Engine:
             return z3.IntVal(0)
         _, ln, _ = self.lst(sv)
         n = ln(sv.term)
+        # type invariant of the particular term (a global axiom "all values of the sort have len >= 0" would be
+        # inconsistent with the datatype theory); under binders it is hoisted by quant()/materialize()
         self.side_fact(n >= 0)
         return n
 
@@ -290,25 +352,34 @@ class Engine:
         return SV(s.constructor(0)(z3.K(self.w.sort(kt), z3.BoolVal(False)), vals), t, fresh=True)
 
     def dict_order(self, d: SV, sorted_: bool = False):
-        """(size, order array, pos fn) with the ordering axioms added for this dict term."""
-        s = self.w.sort(d.ty)
+        """(size, order array, pos fn).  Iteration order is modelled as a fixed but arbitrary function of the KEY SET
+        (values may be mutated in place while iterating, adding / removing keys may not)."""
         ks = self.w.sort(d.ty.args[0])
-        tag = "s" if sorted_ else ""
-        size = self.w.func(f"dsize{tag}<{s}>", s, z3.IntSort())(d.term)
-        order = self.w.func(f"dorder{tag}<{s}>", s, z3.ArraySort(z3.IntSort(), ks))(d.term)
-        posf = self.w.func(f"dpos{tag}<{s}>", s, ks, z3.IntSort())
         _, has, _ = self.dct(d)
+        h = has(d.term)
+        hs = h.sort()
+        tag = "s" if sorted_ else ""
+        size = self.w.func(f"dsize{tag}<{ks}>", hs, z3.IntSort())(h)
+        order = self.w.func(f"dorder{tag}<{ks}>", hs, z3.ArraySort(z3.IntSort(), ks))(h)
+        pf = self.w.func(f"dpos{tag}<{ks}>", hs, ks, z3.IntSort())
+        posf = lambda _dterm, k_, _h=h: pf(_h, k_)
+        if not self.binders:
+            done = self.st.__dict__.setdefault("order_done", set())
+            key = (h.get_id(), sorted_)
+            if key in done:
+                return size, order, posf
+            done.add(key)
         i = z3.Const("oi", z3.IntSort())
         k = z3.Const("ok", ks)
         self.side_fact(size >= 0)
         self.side_fact(z3.ForAll([i], z3.Implies(z3.And(0 <= i, i < size),
-                                                 z3.And(z3.Select(has(d.term), z3.Select(order, i)),
-                                                        posf(d.term, z3.Select(order, i)) == i)),
+                                                 z3.And(z3.Select(h, z3.Select(order, i)),
+                                                        pf(h, z3.Select(order, i)) == i)),
                                  patterns=[z3.Select(order, i)]))
-        self.side_fact(z3.ForAll([k], z3.Implies(z3.Select(has(d.term), k),
-                                                 z3.And(0 <= posf(d.term, k), posf(d.term, k) < size,
-                                                        z3.Select(order, posf(d.term, k)) == k)),
-                                 patterns=[posf(d.term, k)]))
+        self.side_fact(z3.ForAll([k], z3.Implies(z3.Select(h, k),
+                                                 z3.And(0 <= pf(h, k), pf(h, k) < size,
+                                                        z3.Select(order, pf(h, k)) == k)),
+                                 patterns=[pf(h, k)]))
         return size, order, posf
 
     # -------------------------------------------------------------- coerce
